@@ -120,11 +120,12 @@ def pcalg_to_graph(arr, arr_idx: List[Node], amat_type: str):
                 if arr[jdx, idx] == PCAlgCPDAGEndpoint.ARROW.value:
                     graph.add_edge(u, v, edge_type=graph.undirected_edge_name)
                 else:
-                    graph.add_edge(u, v, edge_type=graph.directed_edge_name)
+                    # the edgemark-code refers to the row index: arrowhead at u
+                    graph.add_edge(v, u, edge_type=graph.directed_edge_name)
             elif arr_val == PCAlgCPDAGEndpoint.NULL.value:
                 # check other direction to determine if a bidirected edge
                 if arr[jdx, idx] == PCAlgCPDAGEndpoint.ARROW.value:
-                    graph.add_edge(v, u, edge_type=graph.directed_edge_name)
+                    graph.add_edge(u, v, edge_type=graph.directed_edge_name)
 
     return graph
 
@@ -183,16 +184,16 @@ def graph_to_pcalg(causal_graph):
                 clearn_arr[idx, jdx] == CLearnEndpoint.ARROW.value
                 and clearn_arr[jdx, idx] == CLearnEndpoint.TAIL.value
             ):
-                # ->
-                clearn_arr[idx, jdx] = PCAlgCPDAGEndpoint.ARROW.value
-                clearn_arr[jdx, idx] = PCAlgCPDAGEndpoint.NULL.value
+                # idx -> jdx: the edgemark-code refers to the row index
+                clearn_arr[idx, jdx] = PCAlgCPDAGEndpoint.NULL.value
+                clearn_arr[jdx, idx] = PCAlgCPDAGEndpoint.ARROW.value
             elif (
                 clearn_arr[idx, jdx] == CLearnEndpoint.TAIL.value
                 and clearn_arr[jdx, idx] == CLearnEndpoint.ARROW.value
             ):
-                # <-
-                clearn_arr[idx, jdx] = PCAlgCPDAGEndpoint.NULL.value
-                clearn_arr[jdx, idx] = PCAlgCPDAGEndpoint.ARROW.value
+                # idx <- jdx
+                clearn_arr[idx, jdx] = PCAlgCPDAGEndpoint.ARROW.value
+                clearn_arr[jdx, idx] = PCAlgCPDAGEndpoint.NULL.value
         if amat_type == "pag":
             if (
                 clearn_arr[idx, jdx] == CLearnEndpoint.ARROW.value
